@@ -28,7 +28,16 @@ pub enum POp {
     Align { filter: SiteFilter, min_freq: String, ambig_missing: bool, ambig_mask: bool, no_gap_only: bool },
     Map { vcf: bool, ambig_mask: bool, repeat_mask: bool },
     Distance { min_freq: String, allow_ambig: bool },
-    Weed { reverse: bool },
+    Weed {
+        reverse: bool,
+        #[serde(default)]
+        ambig_missing: bool,
+        #[serde(default)]
+        ambig_mask: bool,
+        /// --filter (cli spelling); empty = not given
+        #[serde(default)]
+        filter: String,
+    },
     Delete { names: Vec<String> },
     /// merge with the second sample set, in both argument orders
     Merge,
@@ -177,7 +186,15 @@ impl Workload for PersistWorkload {
                 }
                 2 | 3 => POp::Map { vcf: rng.chance(50), ambig_mask: rng.chance(30), repeat_mask: rng.chance(30) },
                 4 => POp::Distance { min_freq: ["0", "0.5", "1"][rng.below(3)].to_string(), allow_ambig: rng.chance(40) },
-                5 => POp::Weed { reverse: rng.chance(40) },
+                5 => {
+                    let flags = rng.chance(50);
+                    POp::Weed {
+                        reverse: rng.chance(40),
+                        ambig_missing: flags && rng.chance(40),
+                        ambig_mask: flags && rng.chance(40),
+                        filter: if flags && rng.chance(50) { ["no-filter", "no-const", "no-ambig", "no-ambig-or-const"][rng.below(4)].to_string() } else { String::new() },
+                    }
+                }
                 6 if n >= 2 => {
                     let sub = rng.proper_subset(n);
                     POp::Delete { names: sub.iter().map(|i| names[*i].clone()).collect() }
@@ -326,11 +343,26 @@ impl Workload for PersistWorkload {
                         }
                     }
                 }
-                POp::Weed { reverse } => {
-                    let a = ex.inmem("l1.txt", vec!["weed".into(), "weed.fa".into(), b(*reverse)])?;
+                POp::Weed { reverse, ambig_missing, ambig_mask, filter } => {
+                    // `ska weed` without --filter means no-filter
+                    let f = if filter.is_empty() { "no-filter".to_string() } else { filter.clone() };
+                    let a = ex.inmem("l1.txt", vec!["weed".into(), "weed.fa".into(), b(*reverse), b(*ambig_missing), b(*ambig_mask), f])?;
                     let mut args = vec!["weed".to_string(), "f.skf".into(), "weed.fa".into(), "-o".into(), "w.skf".into(), "--min-freq".into(), "0".into()];
                     if *reverse {
                         args.push("--reverse".into());
+                    }
+                    if *ambig_missing {
+                        args.push("--filter-ambig-as-missing".into());
+                    }
+                    if *ambig_mask {
+                        args.push("--ambig-mask".into());
+                    }
+                    if !filter.is_empty() {
+                        args.push("--filter".into());
+                        args.push(filter.clone());
+                    }
+                    if *ambig_missing || *ambig_mask || !filter.is_empty() {
+                        probe("persist_weed_with_filter_flags");
                     }
                     let r = ex.run(args)?;
                     viol = status(&a, &r);
